@@ -133,6 +133,8 @@ func schemaOps(seed int64, n int, outDir string, streams string, replay string) 
 				groupContainers(s, g)
 			case "objects":
 				groupObjects(s, g)
+			case "corrupt":
+				groupCorrupt(s, g)
 			}
 		}
 	}
